@@ -160,26 +160,41 @@ class Facade(BaseAdapter):
                         ptype))
             return X.IMETHODRESPONSE(d["name"], children or None)
         # extrinsic method
-        params = [pywbem.CIMParameter(n, t, value=cimvalue(v, t)
-                                      if not isinstance(v, (list, CIMInstance,
-                                                            CIMClass,
-                                                            CIMInstanceName,
-                                                            CIMClassName))
-                                      else v) for n, t, v in d["params"]]
+        params = []
+        for n, t, v in d["params"]:
+            if t and not isinstance(v, (CIMInstance, CIMClass,
+                                        CIMInstanceName, CIMClassName)):
+                v = cimvalue(v, t)
+            if t is None:
+                # e.g. an empty array sent without PARAMTYPE
+                t = "string"
+            params.append(pywbem.CIMParameter(
+                n, t, value=v, is_array=isinstance(v, list)))
         res = self.server._mock_methodcall(d["name"], d["object"],
                                            Params=params)
-        children = []
-        for item in res:
-            if item[0] == "RETURNVALUE":
-                rv = item[2]
-                children.append(X.RETURNVALUE(
-                    pywbem.tocimxml(rv, as_value=True),
-                    pywbem.cimtype(rv)))
-            else:
-                pname, ptype, pval = item
-                children.append(X.PARAMVALUE(
-                    pname, pywbem.tocimxml(pval, as_value=True)
-                    if pval is not None else None, ptype))
+        # (return value, NocaseDict name -> value); the declared types of the
+        # output parameters come from the method declaration in the class
+        rv, outs = res
+        decl = {}
+        try:
+            cls = self.server.GetClass(
+                d["object"].classname, namespace=d["object"].namespace,
+                LocalOnly=False)
+            meth = cls.methods[d["name"]]
+            decl = {n.lower(): p.type for n, p in meth.parameters.items()}
+            rtype = meth.return_type
+        except Exception:  # noqa
+            rtype = pywbem.cimtype(rv) if rv is not None else "uint32"
+        children = [X.RETURNVALUE(pywbem.tocimxml(cimvalue(rv, rtype)),
+                                  rtype)]
+        for pname, pval in outs.items():
+            ptype = decl.get(pname.lower())
+            if ptype is None:
+                ptype = pywbem.cimtype(pval) if pval not in (None, []) \
+                    else "string"
+            children.append(X.PARAMVALUE(
+                pname, pywbem.tocimxml(cimvalue(pval, ptype))
+                if pval is not None else None, ptype))
         return X.METHODRESPONSE(d["name"], children)
 
     # -- transport ----------------------------------------------------------------
